@@ -66,6 +66,26 @@ func C04_Bytes() {
 	vf.Reach("bytes")
 }
 
+// openers put the scanner into its literal and comment states, which
+// arbitrary bytes of the bounded length alone rarely reach.
+var c04Openers = []string{"/*", "//", "\"", "`", "'", "0x", "1e", "1.", "a.", "a /* c */", "\"\\", "'\\", "/* *"}
+
+// C04_Openers: a literal/comment opener followed by 1..2 arbitrary bytes.
+func C04_Openers() {
+	op := c04Openers[vf.Choice("opener", len(c04Openers))]
+	maxN := 2
+	if Tier() > 0 {
+		maxN = 3
+	}
+	n := 1 + vf.Choice("n", maxN)
+	rest := vf.Bytes("src", n)
+	var src []byte
+	src = append(src, op...)
+	src = append(src, rest...)
+	checkTotal(src, "a literal or comment opener followed by arbitrary bytes", false)
+	vf.Reach("openers")
+}
+
 // C04_ModuleBody: the same bytes as the body of an imported source module.
 func C04_ModuleBody() {
 	maxN := 2
@@ -90,6 +110,7 @@ var c04Seeds = []string{
 	`for i := 0; i < 3; i++ { if i == 1 { continue }; out += i }`,
 	`f := func(x, ...y) { return x + len(y) }; out := f(1, [2]...)`,
 	`m := {a: 1, "b": [1, 2.5, 'c', "s"]}; m.a += 1; out := m.b[1:2]`,
+	`x := 1 /* c */ // d`,
 	`for k, v in {x: 1} { out = k + v }`,
 	`out := a > 0 ? "p" : (a == 0 ? "z" : "n")`,
 	`x := immutable([1]); e := error("m"); out := e.value + string(x)`,
@@ -101,7 +122,7 @@ var c04Seeds = []string{
 // C04_SeedHole: a seed program with one byte replaced by, or one byte
 // inserted as, an arbitrary byte at a case-split position.
 func C04_SeedHole() {
-	nSeeds := 4
+	nSeeds := 5
 	if Tier() > 0 {
 		nSeeds = len(c04Seeds)
 	}
